@@ -1,7 +1,7 @@
 (** C01 for SADUMP, open paths: [sd_open] on the encoder's output - a single
     partition, a media backup, or a disk set - yields the state the page-path
     theorem needs, the geometry, and extents that lay out the page data. *)
-From Coq Require Import NArith List Bool Lia Arith.
+From Coq Require Import NArith List Bool Lia Arith Permutation.
 From KdV Require Import Fmt.Codec Fmt.CodecProofs Fmt.PfnModel Fmt.PfnProofs Fmt.PfnBridge Fmt.BitmapSpec Fmt.ImageSpec
      Fmt.SadumpModel Fmt.SadumpSpec Fmt.SadumpProofs.
 Import ListNotations.
@@ -113,6 +113,7 @@ Section Head.
   Variable l : sd_layout.
   Variable img : image.
   Variable rd : N -> N -> N -> bytes.
+  Variable fi : N.                       (* index of this file in the set as passed *)
   Variable pre mid d1 vol : bytes.
   Variable disk : N.
   Hypothesis Hwf : sd_wf_base l img.
@@ -225,27 +226,27 @@ Section Head.
   Lemma data_pos_is : data_pos = hdr_pos + body_len l.
   Proof. unfold data_pos, bmp_pos, body_len. fold bs. lia. Qed.
 
-  Hypothesis Hrd : forall off k, rd 0 off k = read_of F off k.
+  Hypothesis Hrd : forall off k, rd fi off k = read_of F off k.
 
-  Lemma sph_is : rd 0 base SPH_SIZE = enc_flds false phf.
+  Lemma sph_is : rd fi base SPH_SIZE = enc_flds false phf.
   Proof.
     rewrite Hrd. unfold F, base. rewrite <- (N.add_0_r (len pre)), read_of_skip_add.
     rewrite ph_is, <- !app_assoc. apply read_of_exact'. rewrite len_enc_flds. reflexivity.
   Qed.
 
-  Lemma rd_mid : rd 0 (base + bs) m = mid.
+  Lemma rd_mid : rd fi (base + bs) m = mid.
   Proof.
     rewrite Hrd, F_sections. unfold base. rewrite <- len_PHb, <- (N.add_0_r (len PHb)).
     rewrite !read_of_skip_add. apply read_of_exact'. reflexivity.
   Qed.
 
-  Lemma rd_mid_part off k : off + k <= m -> rd 0 (base + bs + off) k = read_of mid off k.
+  Lemma rd_mid_part off k : off + k <= m -> rd fi (base + bs + off) k = read_of mid off k.
   Proof.
     intro H. rewrite Hrd, F_sections. unfold base. rewrite <- len_PHb, <- N.add_assoc.
     rewrite !read_of_skip_add. now apply read_of_prefix.
   Qed.
 
-  Lemma rd_dh : rd 0 hdr_pos SH_SIZE = enc_flds false dhf.
+  Lemma rd_dh : rd fi hdr_pos SH_SIZE = enc_flds false dhf.
   Proof.
     rewrite Hrd, F_sections. unfold hdr_pos, base, m.
     replace (len pre + bs + len mid) with (len pre + (len PHb + (len mid + 0))) by (rewrite len_PHb; lia).
@@ -253,7 +254,7 @@ Section Head.
     unfold DHb. rewrite <- !app_assoc. apply read_of_exact'. rewrite len_enc_flds. reflexivity.
   Qed.
 
-  Lemma rd_subc off k : off + k <= len subc -> rd 0 (hdr_pos + bs + off) k = read_of subc off k.
+  Lemma rd_subc off k : off + k <= len subc -> rd fi (hdr_pos + bs + off) k = read_of subc off k.
   Proof.
     intro H. rewrite Hrd, F_sections. unfold hdr_pos, base, m.
     replace (len pre + bs + len mid + bs + off) with (len pre + (len PHb + (len mid + (len DHb + off))))
@@ -261,7 +262,7 @@ Section Head.
     rewrite !read_of_skip_add. unfold SUBb. rewrite <- !app_assoc. now apply read_of_prefix.
   Qed.
 
-  Lemma rd_db : rd 0 bmp_pos (bs * sl_dumpable_blocks l) = DB.
+  Lemma rd_db : rd fi bmp_pos (bs * sl_dumpable_blocks l) = DB.
   Proof.
     rewrite Hrd, F_sections.
     replace bmp_pos with (len pre + (len PHb + (len mid + (len DHb + (len SUBb + (len MB + 0))))))
@@ -269,7 +270,7 @@ Section Head.
     rewrite !read_of_skip_add. apply read_of_exact'. rewrite len_DB. lia.
   Qed.
 
-  Lemma rd_data o k : o + k <= len d1 -> rd 0 (data_pos + o) k = read_of d1 o k.
+  Lemma rd_data o k : o + k <= len d1 -> rd fi (data_pos + o) k = read_of d1 o k.
   Proof.
     intro H. rewrite Hrd, F_sections.
     replace (data_pos + o) with (len pre + (len PHb + (len mid + (len DHb + (len SUBb + (len MB + (len DB + o)))))))
@@ -294,16 +295,16 @@ Section Head.
   (** the word that follows the partition header block is not the next magic number *)
   Hypothesis Hbreak : get false (read_of after_block 0 4) <> next_magic l.
 
-  Lemma vmn : verify_magic_number rd 0 base = Ok (base + bs).
+  Lemma vmn : verify_magic_number rd fi base = Ok (base + bs).
   Proof.
     unfold verify_magic_number. destruct bs_facts as [[Hb1 Hb2] [Ebs Hn]].
     pose proof (sw_magic0 _ _ Hwf) as Hm0.
-    assert (Hprev : get32 false (rd 0 (base + SPH_SIZE) 4) 0 = sl_magic0 l).
+    assert (Hprev : get32 false (rd fi (base + SPH_SIZE) 4) 0 = sl_magic0 l).
     { rewrite Hrd, get32_read by lia. rewrite F_magic. unfold SPH_SIZE, base. rewrite N.add_0_r.
       rewrite (read_of_section' (pre ++ enc_flds false phf) (put32 false (sl_magic0 l)));
         [unfold put32; apply get_put; cbn; lia | rewrite len_app, len_enc_flds; reflexivity | now rewrite len_put32]. }
     rewrite Hprev.
-    pose proof (magic_loop_run rd 0 F Hrd (n - 1) (sl_magic0 l) (pre ++ enc_flds false phf) after_block
+    pose proof (magic_loop_run rd fi F Hrd (n - 1) (sl_magic0 l) (pre ++ enc_flds false phf) after_block
                   (N.to_nat 262144) F_magic) as Hrun.
     rewrite len_app, len_enc_flds in Hrun. change (flds_len phf) with 168 in Hrun. fold base in Hrun.
     unfold SPH_SIZE. rewrite Hrun.
@@ -325,19 +326,19 @@ Section Head.
     intro E. apply Hne. apply length_zero_iff_nil. lia.
   Qed.
 
-  Lemma setup_arch_ok : setup_arch rd 0 (hdr_pos + bs) cpus = Ok ptr.
+  Lemma setup_arch_ok : setup_arch rd fi (hdr_pos + bs) cpus = Ok ptr.
   Proof.
     unfold setup_arch. destruct cpus_facts as [Hnz [Hlt Hlen]].
     destruct (sw_cpusz _ _ Hwf) as [Hcs Hprod]. fold cpus in Hprod.
     destruct (N.eqb_spec cpus 0); [contradiction |].
-    assert (Hsz : get32 false (rd 0 (hdr_pos + bs) 4) 0 = sl_cpu_size l * cpus).
+    assert (Hsz : get32 false (rd fi (hdr_pos + bs) 4) 0 = sl_cpu_size l * cpus).
     { rewrite <- (N.add_0_r (hdr_pos + bs)). rewrite rd_subc by (rewrite len_subc; lia).
       unfold subc. rewrite (read_of_exact' (put32 false (sl_cpu_size l * cpus))) by (now rewrite len_put32).
       unfold get32. rewrite sub_all. unfold put32. apply get_put. cbn. lia. }
     rewrite Hsz, N.div_mul by assumption.
     destruct (N.ltb_spec (sl_cpu_size l) CPU_STATE_SIZE); [unfold CPU_STATE_SIZE in *; lia |].
     f_equal. rewrite Hlen.
-    pose proof (cpu_loop_run rd 0 F l Hrd (sl_lma l)
+    pose proof (cpu_loop_run rd fi F l Hrd (sl_lma l)
                   (pre ++ PHb ++ mid ++ DHb ++ put32 false (sl_cpu_size l * cpus) ++ zeros (16 * cpus))
                   (zeros (sl_sub_blocks l * bs - len subc) ++ MB ++ DB ++ d1) Hcs) as Hrun.
     rewrite !len_app, len_PHb, len_DHb, len_put32, len_zeros in Hrun.
@@ -406,11 +407,11 @@ Section Head.
   Qed.
 
   (** ** the tail of [open_common] *)
-  Definition ext0 : extent := {| ex_pos := data_pos; ex_len := len d1; ex_fidx := 0 |}.
+  Definition ext0 : extent := {| ex_pos := data_pos; ex_len := len d1; ex_fidx := fi |}.
 
   Lemma finish_ok a :
     pa_ptr a = None ->
-    oc_finish rd 0 bs used a hdr_pos =
+    oc_finish rd fi bs used a hdr_pos =
     Ok {| pa_block_size := pa_block_size a; pa_ids := pa_ids a; pa_vol := pa_vol a; pa_seen := pa_seen a;
           pa_ext := set_nth (pa_ext a) 0 ext0; pa_ptr := Some ptr; pa_max_pfn := sl_max_mapnr l;
           pa_bmp_pos := bmp_pos |}.
@@ -476,21 +477,21 @@ Section Head.
 
   (** a single partition or a media backup: no disk-set bookkeeping *)
   Lemma oc_plain a smh :
-    mid = [] -> (disk = 0 \/ smh <> None) ->
+    fi = 0 -> mid = [] -> (disk = 0 \/ smh <> None) ->
     match smh with Some mh => sub mh 0 48 = sl_ids l | None => True end ->
     pa_ptr a = None ->
-    open_common rd 1 0 a smh (enc_flds false phf) base =
+    open_common rd 1 fi a smh (enc_flds false phf) base =
     Ok {| pa_block_size := bs; pa_ids := sl_ids l; pa_vol := pa_vol a; pa_seen := pa_seen a;
           pa_ext := set_nth (pa_ext a) 0 ext0; pa_ptr := Some ptr; pa_max_pfn := sl_max_mapnr l;
           pa_bmp_pos := bmp_pos |}.
   Proof.
-    intros Hmid Hsds Hm Hp. unfold open_common.
+    intros Hfi Hmid Hsds Hm Hp. unfold open_common.
     destruct sph_fields as [_ [Hu [Hd [Hids Hv]]]]. rewrite Hids, Hu, Hd.
     assert (Hmok : (match smh with Some mh => SadumpModel.bytes_eqb (sub mh 0 48) (sl_ids l) | None => true end) = true).
     { destruct smh as [mh |]; [rewrite Hm; apply beqb_refl | reflexivity]. }
     rewrite Hmok. cbn [negb]. rewrite vmn.
     replace (base + bs - base) with bs by lia.
-    change (0 =? 0) with true. cbn [negb andb]. cbv iota.
+    assert (Hz0 : (fi =? 0) = true) by (rewrite Hfi; reflexivity). rewrite Hz0. cbn [negb andb]. cbv iota.
     assert (Hz : (match smh with Some _ => 0 | None => disk end) = 0).
     { destruct smh; [reflexivity |]. destruct Hsds as [-> | H]; [reflexivity | contradiction]. }
     rewrite Hz. change (0 =? 0) with true. cbv iota. change (1 <? 1) with false. cbv iota.
@@ -499,31 +500,44 @@ Section Head.
     rewrite len_nil, N.add_0_r in Hf. rewrite Hf. unfold acc_head. reflexivity.
   Qed.
 
-  (** disk 1 of a set: volume id, disk set header, then as above *)
+  (** disk 1 of a set, at any position among the files: volume id, disk set
+      header, then as above *)
   Lemma oc_set a nfiles vol' :
     disk = 1 -> 1 <= nfiles -> pa_ptr a = None -> nth 0 (pa_seen a) false = false ->
-    init_disk_set rd 0 (base + bs) bs nfiles
+    (fi = 0 \/ (pa_block_size a = bs /\ pa_ids a = sl_ids l)) ->
+    init_disk_set rd fi (base + bs) bs nfiles
       {| pa_block_size := bs; pa_ids := sl_ids l; pa_vol := set_nth (pa_vol a) 0 (Some vol);
          pa_seen := pa_seen a; pa_ext := pa_ext a; pa_ptr := pa_ptr a; pa_max_pfn := pa_max_pfn a;
          pa_bmp_pos := pa_bmp_pos a |} = Ok (hdr_pos, vol') ->
-    open_common rd nfiles 0 a None (enc_flds false phf) base =
+    open_common rd nfiles fi a None (enc_flds false phf) base =
     Ok {| pa_block_size := bs; pa_ids := sl_ids l; pa_vol := vol'; pa_seen := set_nth (pa_seen a) 0 true;
           pa_ext := set_nth (pa_ext a) 0 ext0; pa_ptr := Some ptr; pa_max_pfn := sl_max_mapnr l;
           pa_bmp_pos := bmp_pos |}.
   Proof.
-    intros Hd1 Hnf Hp Hseen Hinit. unfold open_common.
+    intros Hd1 Hnf Hp Hseen Hfirst Hinit. unfold open_common.
     destruct sph_fields as [_ [Hu [Hd [Hids Hv]]]]. rewrite Hids, Hu, Hd, Hv.
     cbn [negb]. rewrite vmn. replace (base + bs - base) with bs by lia.
-    change (0 =? 0) with true. cbn [negb andb]. cbv iota.
+    assert (Hacc : (if fi =? 0
+                    then {| pa_block_size := bs; pa_ids := sl_ids l; pa_vol := pa_vol a; pa_seen := pa_seen a;
+                            pa_ext := pa_ext a; pa_ptr := pa_ptr a; pa_max_pfn := pa_max_pfn a;
+                            pa_bmp_pos := pa_bmp_pos a |}
+                    else a) = acc_head a).
+    { destruct (fi =? 0) eqn:E; [reflexivity |]. destruct Hfirst as [-> | [Hb1 Hb2]]; [discriminate E |].
+      unfold acc_head. rewrite <- Hb1, <- Hb2. destruct a; reflexivity. }
+    assert (Hchk : (negb (fi =? 0) && negb (pa_block_size a =? bs) = false) /\
+                   (negb (fi =? 0) && negb (SadumpModel.bytes_eqb (pa_ids a) (sl_ids l)) = false)).
+    { destruct Hfirst as [-> | [Hb1 Hb2]]; [split; reflexivity |].
+      rewrite Hb1, Hb2, N.eqb_refl, beqb_refl. split; apply andb_false_r. }
+    destruct Hchk as [Hc1 Hc2]. rewrite Hc1, Hc2, Hacc.
     rewrite Hd1. change (1 =? 0) with false. cbv iota.
     destruct (N.ltb_spec nfiles 1); [lia |].
     change (N.to_nat (1 - 1)) with 0%nat.
-    cbn [pa_seen pa_vol pa_block_size pa_ids pa_ext pa_ptr pa_max_pfn pa_bmp_pos].
-    rewrite Hseen. unfold process_vol_id. cbn [pa_seen pa_vol]. rewrite Hseen.
+    cbn [acc_head pa_seen pa_vol pa_block_size pa_ids pa_ext pa_ptr pa_max_pfn pa_bmp_pos].
+    rewrite Hseen. unfold process_vol_id, acc_head. cbn [pa_seen pa_vol]. rewrite Hseen.
     change (1 <? 1) with false. cbv iota.
     cbn [pa_seen pa_vol pa_block_size pa_ids pa_ext pa_ptr pa_max_pfn pa_bmp_pos].
     rewrite Hinit.
-    match goal with |- oc_finish rd 0 bs used ?acc hdr_pos = _ =>
+    match goal with |- oc_finish rd fi bs used ?acc hdr_pos = _ =>
       pose proof (finish_ok acc Hp) as Hf end.
     rewrite Hf. reflexivity.
   Qed.
@@ -587,20 +601,20 @@ Section Single.
 
   Theorem sd_open_single :
     sd_open rd 1 =
-    Ok (the_state img (nbytes l) [ext0 l [] [] data] (sl_max_mapnr l) bs (ptr l) 1).
+    Ok (the_state img (nbytes l) [ext0 l 0 [] [] data] (sl_max_mapnr l) bs (ptr l) 1).
   Proof.
     pose proof (sw_base _ _ Hwf) as Hb. pose proof (sw_vol _ _ Hwf) as Hv. fold vol in Hv.
     assert (Hd : 0 < 2^32) by reflexivity.
     unfold sd_open. cbn [N.of_nat Pos.of_succ_nat probe_files]. fold (a0 1).
     unfold probe_file.
-    pose proof (sph_is l img rd [] [] data vol 0 rd_head) as Hs. change (len []) with 0 in Hs.
+    pose proof (sph_is l img rd 0 [] [] data vol 0 rd_head) as Hs. change (len []) with 0 in Hs.
     rewrite Hs.
-    destruct (sph_fields l img rd [] [] data vol 0 Hb rd_head break_single Hv Hd used_small) as [Hsig _].
+    destruct (sph_fields l img rd 0 [] [] data vol 0 Hb rd_head break_single Hv Hd used_small) as [Hsig _].
     rewrite Hsig.
-    pose proof (oc_plain l img rd [] [] data vol 0 Hb rd_head break_single Hv Hd used_small (a0 1) None
-                  eq_refl (or_introl eq_refl) I eq_refl) as Ho.
+    pose proof (oc_plain l img rd 0 [] [] data vol 0 Hb rd_head break_single Hv Hd used_small (a0 1) None
+                  eq_refl eq_refl (or_introl eq_refl) I eq_refl) as Ho.
     change (len []) with 0 in Ho. rewrite Ho. cbv beta iota.
-    apply (open_tail l img rd [] [] data vol 0 Hb rd_head break_single Hv Hd used_small _ []); reflexivity.
+    apply (open_tail l img rd 0 [] [] data vol 0 Hb rd_head break_single Hv Hd used_small _ []); reflexivity.
   Qed.
 End Single.
 
@@ -622,7 +636,7 @@ Proof.
   - intros k Hk.
     pose proof (len_page_data img (sw_pages _ _ Hb)) as Hl.
     apply (single_extent_ok _ (page_data img) 0 (data_pos l [] [])).
-    + intros o n Hon. apply (rd_data l img _ [] [] (page_data img) (nth 0 (sl_vol_ids l) []) 0 Hb).
+    + intros o n Hon. apply (rd_data l img _ 0 [] [] (page_data img) (nth 0 (sl_vol_ids l) []) 0 Hb).
       * apply rd_head.
       * exact Hon.
     + rewrite Hl. lia.
@@ -704,7 +718,7 @@ Section Media.
 
   Theorem sd_open_media :
     sd_open rd 1 =
-    Ok (the_state img (nbytes l) [ext0 l MH [] data] (sl_max_mapnr l) bs (ptr l) 1).
+    Ok (the_state img (nbytes l) [ext0 l 0 MH [] data] (sl_max_mapnr l) bs (ptr l) 1).
   Proof.
     pose proof (sm_base _ _ Hwf) as Hb. pose proof (sm_vol _ _ Hwf) as Hv. fold vol in Hv.
     assert (Hd : 0 < 2^32) by reflexivity.
@@ -714,15 +728,15 @@ Section Media.
     { rewrite rd_headM. unfold SPH_SIZE. rewrite read_of_prefix by (rewrite len_MH; lia).
       exact (sm_nosig _ _ Hwf). }
     rewrite Hnosig.
-    pose proof (sph_is l img rd MH [] data vol 0 rd_headM) as Hs. rewrite len_MH in Hs.
+    pose proof (sph_is l img rd 0 MH [] data vol 0 rd_headM) as Hs. rewrite len_MH in Hs.
     unfold DEFAULT_BLOCK_SIZE. rewrite Hs.
-    destruct (sph_fields l img rd MH [] data vol 0 Hb rd_headM break_media Hv Hd used_smallM) as [Hsig _].
+    destruct (sph_fields l img rd 0 MH [] data vol 0 Hb rd_headM break_media Hv Hd used_smallM) as [Hsig _].
     rewrite Hsig.
     assert (Hne : Some (rd 0 0 SMH_SIZE) <> None) by (intro Hx; inversion Hx).
-    pose proof (oc_plain l img rd MH [] data vol 0 Hb rd_headM break_media Hv Hd used_smallM (a0 1)
-                  (Some (rd 0 0 SMH_SIZE)) eq_refl (or_intror Hne) media_ids eq_refl) as Ho.
+    pose proof (oc_plain l img rd 0 MH [] data vol 0 Hb rd_headM break_media Hv Hd used_smallM (a0 1)
+                  (Some (rd 0 0 SMH_SIZE)) eq_refl eq_refl (or_intror Hne) media_ids eq_refl) as Ho.
     rewrite len_MH in Ho. rewrite Ho. cbv beta iota.
-    apply (open_tail l img rd MH [] data vol 0 Hb rd_headM break_media Hv Hd used_smallM _ []); reflexivity.
+    apply (open_tail l img rd 0 MH [] data vol 0 Hb rd_headM break_media Hv Hd used_smallM _ []); reflexivity.
   Qed.
 End Media.
 
@@ -744,7 +758,7 @@ Proof.
   - intros k Hk.
     pose proof (len_page_data img (sw_pages _ _ Hb)) as Hl.
     apply (single_extent_ok _ (page_data img) 0 (data_pos l (media_header l) [])).
-    + intros o n Hon. apply (rd_data l img _ (media_header l) [] (page_data img) (nth 0 (sl_vol_ids l) []) 0 Hb).
+    + intros o n Hon. apply (rd_data l img _ 0 (media_header l) [] (page_data img) (nth 0 (sl_vol_ids l) []) 0 Hb).
       * apply rd_headM.
       * exact Hon.
     + rewrite Hl. lia.
@@ -802,13 +816,13 @@ Section Later.
   Variable l : sd_layout.
   Variable img : image.
   Variable rd : N -> N -> N -> bytes.
-  Variable fidx nfiles : N.
+  Variable fidx nfiles dk_idx : N.      (* position of the file; files in the set; disk number - 1 *)
   Variable vol dk : bytes.
   Hypothesis Hb : sd_wf_base l img.
 
   Let bs := sl_block_size l.
   Let used := bs + len dk.
-  Let disk := fidx + 1.
+  Let disk := dk_idx + 1.
   Let F := part_header l disk vol used ++ dk.
   Let n := N.to_nat ((bs - 168) / 4).
 
@@ -860,7 +874,7 @@ Section Later.
   Qed.
 
   Hypothesis Hvol : len vol = 16.
-  Hypothesis Hfidx : 1 <= fidx /\ fidx < nfiles /\ nfiles < 2^32.
+  Hypothesis Hfidx : 1 <= dk_idx /\ dk_idx < nfiles /\ nfiles < 2^32.
   Hypothesis Hused : used < 2^64.
 
   Lemma sphL_fields :
@@ -890,33 +904,51 @@ Section Later.
   Qed.
 
   Definition extL : extent := {| ex_pos := bs; ex_len := len dk; ex_fidx := fidx |}.
+  Let k := N.to_nat dk_idx.
 
-  (** [probe_file] on this file: its extent goes into the slot of its disk number *)
+  (** [probe_file] on this file, wherever it comes in the set: its extent goes
+      into the slot of its disk number; its volume id is compared with the disk
+      set header's entry if disk 1 has been seen, remembered otherwise *)
   Lemma probe_later a :
-    pa_block_size a = bs -> pa_ids a = sl_ids l ->
-    nth (N.to_nat fidx) (pa_seen a) false = false -> nth 0 (pa_seen a) false = true ->
-    nth (N.to_nat fidx) (pa_vol a) None = Some vol ->
+    (fidx = 0 \/ (pa_block_size a = bs /\ pa_ids a = sl_ids l)) ->
+    nth k (pa_seen a) false = false ->
+    (nth 0 (pa_seen a) false = true -> nth k (pa_vol a) None = Some vol) ->
     probe_file rd nfiles fidx a =
-    Ok {| pa_block_size := bs; pa_ids := sl_ids l; pa_vol := pa_vol a;
-          pa_seen := SadumpModel.set_nth (pa_seen a) (N.to_nat fidx) true;
-          pa_ext := SadumpModel.set_nth (pa_ext a) (N.to_nat fidx) extL;
+    Ok {| pa_block_size := bs; pa_ids := sl_ids l;
+          pa_vol := if nth 0 (pa_seen a) false then pa_vol a else SadumpModel.set_nth (pa_vol a) k (Some vol);
+          pa_seen := SadumpModel.set_nth (pa_seen a) k true;
+          pa_ext := SadumpModel.set_nth (pa_ext a) k extL;
           pa_ptr := pa_ptr a; pa_max_pfn := pa_max_pfn a; pa_bmp_pos := pa_bmp_pos a |}.
   Proof.
-    intros Hbs Hids Hseen Hseen0 Hv. destruct Hfidx as [H1 [H2 H3]].
+    intros Hfirst Hseen Hv. destruct Hfidx as [H1 [H2 H3]].
     unfold probe_file. rewrite sphL_is.
     destruct sphL_fields as [Hsig [Hu [Hd [Hi Hvv]]]]. rewrite Hsig.
     unfold open_common. rewrite Hi, Hu, Hd, Hvv. cbn [negb]. rewrite vmnL. rewrite N.sub_0_r.
-    destruct (N.eqb_spec fidx 0); [lia |]. cbn [negb andb].
-    rewrite Hbs, N.eqb_refl. cbn [negb]. rewrite Hids, (beqb_refl (sl_ids l)). cbn [negb].
-    unfold disk. destruct (N.eqb_spec (fidx + 1) 0); [lia |].
-    destruct (N.ltb_spec nfiles (fidx + 1)); [lia |].
-    replace (fidx + 1 - 1) with fidx by lia. rewrite Hseen.
-    unfold process_vol_id. rewrite Hseen0, Hv, (beqb_refl vol).
-    destruct (N.ltb_spec 1 (fidx + 1)); [| lia].
+    assert (Hchk : (negb (fidx =? 0) && negb (pa_block_size a =? bs) = false) /\
+                   (negb (fidx =? 0) && negb (SadumpModel.bytes_eqb (pa_ids a) (sl_ids l)) = false)).
+    { destruct Hfirst as [-> | [Hb1 Hb2]]; [split; reflexivity |].
+      rewrite Hb1, Hb2, N.eqb_refl, beqb_refl. split; apply andb_false_r. }
+    destruct Hchk as [Hc1 Hc2]. rewrite Hc1, Hc2.
+    set (a1 := if fidx =? 0 then _ else a).
+    assert (Ha1 : pa_block_size a1 = bs /\ pa_ids a1 = sl_ids l /\ pa_vol a1 = pa_vol a /\
+                  pa_seen a1 = pa_seen a /\ pa_ext a1 = pa_ext a /\ pa_ptr a1 = pa_ptr a /\
+                  pa_max_pfn a1 = pa_max_pfn a /\ pa_bmp_pos a1 = pa_bmp_pos a).
+    { unfold a1. destruct (fidx =? 0) eqn:E; [repeat split |].
+      destruct Hfirst as [-> | [Hb1 Hb2]]; [discriminate E | repeat split; assumption]. }
+    destruct Ha1 as (A1 & A2 & A3 & A4 & A5 & A6 & A7 & A8).
+    unfold disk. destruct (N.eqb_spec (dk_idx + 1) 0); [lia |].
+    destruct (N.ltb_spec nfiles (dk_idx + 1)); [lia |].
+    replace (dk_idx + 1 - 1) with dk_idx by lia. fold k. rewrite A4, Hseen.
+    unfold process_vol_id. rewrite A4, A3.
     assert (Hlen : (used + 2^64 - bs) mod 2^64 = len dk).
     { unfold used. replace (bs + len dk + 2^64 - bs) with (len dk + 1 * 2^64) by lia.
       rewrite N.mod_add by discriminate. apply N.mod_small. unfold used in Hused. lia. }
-    rewrite Hlen. reflexivity.
+    destruct (nth 0 (pa_seen a) false) eqn:Es0.
+    - rewrite (Hv eq_refl), (beqb_refl vol).
+      destruct (N.ltb_spec 1 (dk_idx + 1)); [| lia].
+      rewrite ?A1, ?A2, ?A4, ?A5, ?A6, ?A7, ?A8, Hlen. reflexivity.
+    - destruct (N.ltb_spec 1 (dk_idx + 1)); [| lia].
+      rewrite ?A1, ?A2, ?A4, ?A5, ?A6, ?A7, ?A8, Hlen. reflexivity.
   Qed.
 End Later.
 
@@ -986,7 +1018,54 @@ Proof.
     + lia.
 Qed.
 
-(** ** a disk set, the files given in disk order *)
+(** the loop of [init_disk_set] in general: entries of disks already seen are
+    compared with the id remembered for them, the others are copied *)
+Lemma vol_loop_ok hdr seen : forall k i vol,
+  (i + k <= length vol)%nat ->
+  (forall j, (i <= j < i + k)%nat -> nth j seen false = true ->
+             nth j vol None = Some (sub hdr (16 + 32 * N.of_nat j) 16)) ->
+  exists vol', vol_loop k i hdr vol seen = Ok vol' /\ length vol' = length vol /\
+    forall j, nth j vol' None =
+              if (Nat.leb i j && Nat.ltb j (i + k))%bool then Some (sub hdr (16 + 32 * N.of_nat j) 16)
+              else nth j vol None.
+Proof.
+  induction k as [| k IH]; intros i vol Hlen Hseen.
+  - exists vol. split; [reflexivity |]. split; [reflexivity |]. intro j.
+    destruct (Nat.leb_spec i j); destruct (Nat.ltb_spec j (i + 0)); cbn [andb]; try reflexivity; lia.
+  - cbn [vol_loop]. destruct (nth i seen false) eqn:Es.
+    + rewrite (Hseen i ltac:(lia) Es), beqb_refl.
+      destruct (IH (S i) vol ltac:(lia)) as [vol' [Hv [Hl Hn]]].
+      { intros j Hj. apply Hseen. lia. }
+      exists vol'. split; [exact Hv |]. split; [exact Hl |]. intro j. rewrite Hn.
+      destruct (Nat.leb_spec (S i) j); destruct (Nat.ltb_spec j (S i + k)); cbn [andb];
+        destruct (Nat.leb_spec i j); destruct (Nat.ltb_spec j (i + S k)); cbn [andb]; try reflexivity; try lia.
+      assert (j = i) by lia. subst j. exact (Hseen i ltac:(lia) Es).
+    + destruct (IH (S i) (SadumpModel.set_nth vol i (Some (sub hdr (16 + 32 * N.of_nat i) 16)))
+                  ltac:(rewrite set_nth_length; lia)) as [vol' [Hv [Hl Hn]]].
+      { intros j Hj Hsj. rewrite nth_set_nth_ne by lia. apply Hseen; [lia | exact Hsj]. }
+      exists vol'. split; [exact Hv |]. split; [now rewrite Hl, set_nth_length |]. intro j. rewrite Hn.
+      destruct (Nat.leb_spec (S i) j); destruct (Nat.ltb_spec j (S i + k)); cbn [andb];
+        destruct (Nat.leb_spec i j); destruct (Nat.ltb_spec j (i + S k)); cbn [andb]; try reflexivity; try lia.
+      * rewrite nth_set_nth_ne by lia. reflexivity.
+      * assert (j = i) by lia. subst j. rewrite nth_set_nth_eq by lia. reflexivity.
+      * rewrite nth_set_nth_ne by lia. reflexivity.
+Qed.
+
+(** position of a disk in the order in which the files are passed *)
+Fixpoint index_of (d : nat) (l : list nat) : nat :=
+  match l with
+  | [] => O
+  | x :: t => if Nat.eqb x d then O else S (index_of d t)
+  end.
+
+Lemma index_of_nth d l : In d l -> (index_of d l < length l)%nat /\ nth (index_of d l) l 0%nat = d.
+Proof.
+  induction l as [| x t IH]; intro H; [destruct H |]. cbn [index_of].
+  destruct (Nat.eqb_spec x d) as [-> | Hne]; [cbn; split; [lia | reflexivity] |].
+  destruct H as [-> | H]; [contradiction |]. destruct (IH H). cbn [length nth]. split; [lia | assumption].
+Qed.
+
+(** ** a disk set, the files given in any order *)
 Record sd_wf_set (l : sd_layout) (img : image) : Prop := {
   ss_base : sd_wf_base l img;
   ss_kind : sl_kind l = SdDiskSet;
@@ -1048,8 +1127,12 @@ Section DiskSet.
   Let d1 := nth 0 ds [].
   Let v1 := nth 0 vols [].
   Let files := encode_sadump l img.
-  Let rd := read_files files.
   Let Hb := ss_base _ _ Hwf.
+
+  (** the files are passed in the order [ord]: position [i] holds disk [nth i ord] (0-based) *)
+  Variable ord : list nat.
+  Hypothesis Hord : Permutation.Permutation ord (seq 0 n).
+  Let rd := read_files (map (fun d => nth d files []) ord).
 
   Lemma n_pos : (1 <= n)%nat.
   Proof. destruct (ss_vols _ _ Hwf) as [Hne _]. unfold n, vols. destruct (sl_vol_ids l); [contradiction | cbn; lia]. Qed.
@@ -1091,18 +1174,40 @@ Section DiskSet.
     replace (N.of_nat (2 + j)) with (N.of_nat (S j) + 1) by lia. reflexivity.
   Qed.
 
-  Lemma rd_file k off cnt : rd (N.of_nat k) off cnt = read_of (nth k files []) off cnt.
-  Proof. unfold rd, read_files. now rewrite Nat2N.id. Qed.
+  Lemma ord_length : length ord = n.
+  Proof. rewrite (Permutation.Permutation_length Hord). apply seq_length. Qed.
 
-  (** *** disk 1 *)
+  Lemma ord_nodup : NoDup ord.
+  Proof. apply (Permutation.Permutation_NoDup (Permutation.Permutation_sym Hord)). apply seq_NoDup. Qed.
+
+  Lemma ord_in d : In d ord <-> (d < n)%nat.
+  Proof.
+    split; intro H.
+    - apply (Permutation.Permutation_in _ Hord) in H. apply in_seq in H. lia.
+    - apply (Permutation.Permutation_in _ (Permutation.Permutation_sym Hord)). apply in_seq. lia.
+  Qed.
+
+  Lemma ord_nth_lt i : (i < n)%nat -> (nth i ord 0 < n)%nat.
+  Proof. intro H. apply ord_in. apply nth_In. rewrite ord_length. exact H. Qed.
+
+  Lemma rd_pos i off cnt : (i < n)%nat ->
+    rd (N.of_nat i) off cnt = read_of (nth (nth i ord 0%nat) files []) off cnt.
+  Proof.
+    intro Hi. unfold rd, read_files. rewrite Nat2N.id. f_equal.
+    rewrite (nth_indep _ [] (nth 0%nat files [])) by (rewrite map_length, ord_length; exact Hi).
+    now rewrite (map_nth (fun d => nth d files []) ord 0%nat).
+  Qed.
+
+  (** *** disk 1, wherever its file comes *)
   Let usedH := len (@nil N) + bs + len SH + body_len l + len d1.
 
   Lemma usedS_is : usedH = bs + len SH + body_len l + len d1.
   Proof. unfold usedH. rewrite len_nil. lia. Qed.
 
-  Lemma rd_headS off k : rd 0 off k = read_of ([] ++ part_header l 1 v1 usedH ++ SH ++ body l img ++ d1) off k.
+  Lemma rd_headS i off k : (i < n)%nat -> nth i ord 0%nat = 0%nat ->
+    rd (N.of_nat i) off k = read_of ([] ++ part_header l 1 v1 usedH ++ SH ++ body l img ++ d1) off k.
   Proof.
-    rewrite usedS_is. change 0 with (N.of_nat 0). rewrite rd_file, files_nth by apply n_pos. reflexivity.
+    intros Hi E. rewrite usedS_is, rd_pos, E, files_nth by (try exact Hi; apply n_pos). reflexivity.
   Qed.
 
   Lemma v1_len : len v1 = 16.
@@ -1162,16 +1267,26 @@ Section DiskSet.
 
   Definition vol_all : list (option bytes) := map Some vols.
 
-  Lemma init_ok a :
-    length (pa_vol a) = n -> (forall j, nth j (pa_seen a) false = false) ->
-    init_disk_set rd 0 (len (@nil N) + bs) bs (N.of_nat n) a = Ok (hdr_pos l [] SH, vol_all).
+  Lemma vol_all_nth d : (d < n)%nat -> nth d vol_all None = Some (nth d vols []).
   Proof.
-    intros Hlen Hseen. unfold init_disk_set.
+    intro H. unfold vol_all.
+    transitivity (nth d (map Some vols) (Some [])); [apply nth_indep; rewrite map_length; exact H | now rewrite map_nth].
+  Qed.
+
+  (** [init_disk_set] with some disks already seen: their remembered volume ids
+      agree with the table, the others are copied from it *)
+  Lemma init_ok i a :
+    (i < n)%nat -> nth i ord 0%nat = 0%nat ->
+    length (pa_vol a) = n ->
+    (forall j, (j < n)%nat -> nth j (pa_seen a) false = true -> nth j (pa_vol a) None = Some (nth j vols [])) ->
+    init_disk_set rd (N.of_nat i) (len (@nil N) + bs) bs (N.of_nat n) a = Ok (hdr_pos l [] SH, vol_all).
+  Proof.
+    intros Hi Ei Hlen Hseen. unfold init_disk_set.
     destruct (ss_hdr _ _ Hwf) as [Hfit Hblk]. fold bs vols n in Hfit.
     destruct (ss_vols _ _ Hwf) as [_ [_ Hn16]]. fold vols n in Hn16.
-    pose proof (rd_mid_part l img rd [] SH d1 v1 1 Hb rd_headS) as Hpart.
-    pose proof (rd_mid l img rd [] SH d1 v1 1 Hb rd_headS) as Hmid.
-    assert (Hblocks : get32 false (rd 0 (len (@nil N) + bs) 4) 0 = sl_set_hdr_blocks l).
+    pose proof (rd_mid_part l img rd (N.of_nat i) [] SH d1 v1 1 Hb (fun off k => rd_headS i off k Hi Ei)) as Hpart.
+    pose proof (rd_mid l img rd (N.of_nat i) [] SH d1 v1 1 Hb (fun off k => rd_headS i off k Hi Ei)) as Hmid.
+    assert (Hblocks : get32 false (rd (N.of_nat i) (len (@nil N) + bs) 4) 0 = sl_set_hdr_blocks l).
     { rewrite <- (N.add_0_r (len [] + bs)). fold bs in Hpart. rewrite Hpart by (rewrite len_SH; lia).
       rewrite SH_is. rewrite read_of_prefix by (unfold SHc; rewrite len_app, len_enc_flds; cbn [flds_len fld_len]; lia).
       unfold SHc. unfold get32. rewrite sub_read_of by lia. rewrite N.add_0_l.
@@ -1184,191 +1299,281 @@ Section DiskSet.
       unfold SHc. rewrite <- !app_assoc. apply get32_fld; [reflexivity | lia]. }
     rewrite Hnum, N.eqb_refl. cbn [negb].
     destruct (N.ltb_spec (len SH) (16 + N.of_nat n * 32)); [rewrite len_SH in *; lia |].
-    rewrite Nat2N.id, (vol_loop_fill n 0 SH (pa_vol a) (pa_seen a) Hseen).
-    f_equal. apply f_equal2; [reflexivity |].
-    unfold vol_all. apply (nth_ext _ _ None None).
-    - rewrite fill_length, map_length. exact Hlen.
-    - intros j Hj. rewrite fill_length, Hlen in Hj. rewrite fill_nth by lia.
+    rewrite Nat2N.id.
+    destruct (vol_loop_ok SH (pa_seen a) n 0 (pa_vol a) ltac:(lia)) as [vol' [Hv [Hl Hn']]].
+    { intros j Hj Hs. rewrite SH_id by lia. apply Hseen; [lia | exact Hs]. }
+    rewrite Hv. f_equal. apply f_equal2; [reflexivity |].
+    apply (nth_ext _ _ None None).
+    - unfold vol_all. rewrite Hl, map_length. exact Hlen.
+    - intros j Hj. rewrite Hl, Hlen in Hj. rewrite Hn'.
       destruct (Nat.leb_spec 0 j); [| lia]. destruct (Nat.ltb_spec j (0 + n)); [| lia]. cbn [andb].
-      rewrite SH_id by assumption.
-      transitivity (nth j (map Some vols) (Some [])); [now rewrite map_nth | apply nth_indep; rewrite map_length; exact Hj].
+      rewrite SH_id by assumption. symmetry. now apply vol_all_nth.
   Qed.
 
   (** *** the whole set *)
   Definition zero_ext : extent := {| ex_pos := 0; ex_len := 0; ex_fidx := 0 |}.
 
-  Definition ext_of (k : nat) : extent :=
-    match k with
-    | O => ext0 l [] SH d1
-    | S _ => {| ex_pos := bs; ex_len := len (nth k ds []); ex_fidx := N.of_nat k |}
+  (** the extent of disk [d] when its file is the [i]-th one passed *)
+  Definition ext_of (d i : nat) : extent :=
+    match d with
+    | O => ext0 l (N.of_nat i) [] SH d1
+    | S _ => {| ex_pos := bs; ex_len := len (nth d ds []); ex_fidx := N.of_nat i |}
     end.
 
-  Definition exts : list extent := map ext_of (seq 0 n).
-
-  Record inv (k : nat) (a : probe_acc) : Prop := {
-    i_bs : pa_block_size a = bs;
-    i_ids : pa_ids a = sl_ids l;
-    i_vol : pa_vol a = vol_all;
-    i_seen : pa_seen a = repeat true k ++ repeat false (n - k);
-    i_ext : pa_ext a = map ext_of (seq 0 k) ++ repeat zero_ext (n - k);
-    i_ptr : pa_ptr a = Some (ptr l);
-    i_max : pa_max_pfn a = sl_max_mapnr l;
-    i_bmp : pa_bmp_pos a = bmp_pos l [] SH
+  (** after the first [j] files *)
+  Record inv (j : nat) (a : probe_acc) : Prop := {
+    i_len : length (pa_seen a) = n /\ length (pa_vol a) = n /\ length (pa_ext a) = n;
+    i_first : (1 <= j)%nat -> pa_block_size a = bs /\ pa_ids a = sl_ids l;
+    i_seen : forall d, (d < n)%nat -> nth d (pa_seen a) false = true <-> In d (firstn j ord);
+    i_vol : forall d, In d (firstn j ord) -> nth d (pa_vol a) None = Some (nth d vols []);
+    i_volall : In 0%nat (firstn j ord) -> pa_vol a = vol_all;
+    i_ext : forall i, (i < j)%nat -> nth (nth i ord 0%nat) (pa_ext a) zero_ext = ext_of (nth i ord 0%nat) i;
+    i_head : if in_dec Nat.eq_dec 0%nat (firstn j ord)
+             then pa_ptr a = Some (ptr l) /\ pa_max_pfn a = sl_max_mapnr l /\ pa_bmp_pos a = bmp_pos l [] SH
+             else pa_ptr a = None
   }.
 
-  Lemma head_step :
-    exists a, probe_file rd (N.of_nat n) 0 (a0 n) = Ok a /\ inv 1 a.
+  Lemma inv0 : inv 0 (a0 n).
   Proof.
-    pose proof n_pos as Hn. pose proof v1_len as Hv. assert (Hd : 1 < 2^32) by reflexivity.
-    unfold probe_file.
-    pose proof (sph_is l img rd [] SH d1 v1 1 rd_headS) as Hs. change (len []) with 0 in Hs. rewrite Hs.
-    destruct (sph_fields l img rd [] SH d1 v1 1 Hb rd_headS break_set Hv Hd used_smallS) as [Hsig _]. rewrite Hsig.
-    pose proof (oc_set l img rd [] SH d1 v1 1 Hb rd_headS break_set Hv Hd used_smallS (a0 n) (N.of_nat n) vol_all
-                  eq_refl ltac:(lia) eq_refl) as Ho.
-    change (len (@nil N)) with 0 in Ho at 1.
-    eexists. split.
-    - apply Ho.
-      + cbn [a0 pa_seen]. destruct n; [lia | reflexivity].
-      + apply init_ok.
-        * cbn [a0 pa_vol]. rewrite set_nth_length, repeat_length. reflexivity.
-        * intro j. cbn [a0 pa_seen]. destruct (Nat.lt_ge_cases j n).
-          -- now rewrite nth_repeat.
-          -- apply nth_overflow. rewrite repeat_length. lia.
-    - constructor; cbn [pa_block_size pa_ids pa_vol pa_seen pa_ext pa_ptr pa_max_pfn pa_bmp_pos a0]; try reflexivity.
-      + rewrite set_nth_repeat0 by exact Hn. reflexivity.
-      + rewrite set_nth_repeat0 by exact Hn. reflexivity.
+    constructor; cbn [a0 pa_seen pa_vol pa_ext pa_ptr firstn].
+    - rewrite !repeat_length. auto.
+    - lia.
+    - intros d Hd. rewrite nth_repeat. split; [discriminate | intros []].
+    - intros d [].
+    - intros [].
+    - intros i Hi. lia.
+    - destruct (in_dec Nat.eq_dec 0%nat []) as [[] |]. reflexivity.
   Qed.
 
-  Lemma later_step k a :
-    (1 <= k < n)%nat -> inv k a ->
-    exists a', probe_file rd (N.of_nat n) (N.of_nat k) a = Ok a' /\ inv (S k) a'.
+  Lemma firstn_S_ord j : (j < n)%nat -> firstn (S j) ord = firstn j ord ++ [nth j ord 0%nat].
   Proof.
-    intros Hk [Ibs Iids Ivol Iseen Iext Iptr Imax Ibmp].
+    intro Hj. pose proof ord_length as Hl. clear - Hj Hl. revert j Hj Hl.
+    generalize n. induction ord as [| x t IH]; intros m j Hj Hl; [cbn in Hl; lia |].
+    destruct j; [reflexivity |]. cbn [firstn nth app]. f_equal. apply (IH (pred m)); cbn in Hl; lia.
+  Qed.
+
+  Lemma not_in_prefix j : (j < n)%nat -> ~ In (nth j ord 0%nat) (firstn j ord).
+  Proof.
+    intros Hj Hin. pose proof ord_nodup as Hnd. pose proof ord_length as Hl.
+    apply (In_nth _ _ 0%nat) in Hin as [q [Hq E]]. rewrite firstn_length in Hq.
+    rewrite nth_firstn_lt in E by lia.
+    assert (q = j) by (apply (proj1 (NoDup_nth ord 0%nat) Hnd); [lia | lia | exact E]). lia.
+  Qed.
+
+  Lemma prefix_in i j : (i < j)%nat -> (j <= n)%nat -> In (nth i ord 0%nat) (firstn j ord).
+  Proof.
+    intros Hi Hj. rewrite <- (nth_firstn_lt ord j i 0%nat) by lia.
+    apply nth_In. rewrite firstn_length, ord_length. lia.
+  Qed.
+
+  Lemma step j a : (j < n)%nat -> inv j a ->
+    exists a', probe_file rd (N.of_nat n) (N.of_nat j) a = Ok a' /\ inv (S j) a'.
+  Proof.
+    intros Hj [[Ls [Lv Le]] Ifirst Iseen Ivol Ivolall Iext Ihead].
+    pose proof n_pos as Hn. pose proof (ord_nth_lt j Hj) as Hd.
+    pose proof (not_in_prefix j Hj) as Hnotin.
+    pose proof (firstn_S_ord j Hj) as HS.
     destruct (ss_vols _ _ Hwf) as [_ [Hall Hn16]]. fold vols n in Hall, Hn16.
-    assert (Hvk : len (nth k vols []) = 16).
-    { rewrite Forall_forall in Hall. apply Hall. apply nth_In. unfold n in Hk. lia. }
-    assert (Hrdk : forall off c, rd (N.of_nat k) off c =
-              read_of (part_header l (N.of_nat k + 1) (nth k vols []) (bs + len (nth k ds [])) ++ nth k ds []) off c).
-    { intros. rewrite rd_file, files_nth by lia. destruct k; [lia | reflexivity]. }
-    assert (Hbrk : get false (read_of (nth k ds []) 0 4) <> next_magic l).
-    { pose proof (ss_break _ _ Hwf) as Hbr. fold data ds in Hbr. rewrite Forall_forall in Hbr.
-      apply Hbr. apply nth_in_tl. rewrite ds_length. lia. }
-    assert (Husedk : bs + len (nth k ds []) < 2^64).
-    { pose proof (files_small k ltac:(lia)) as H. rewrite files_nth in H by lia.
-      destruct k as [| j]; [lia |]. cbn [Nat.eqb] in H. unfold later_file in H. rewrite len_app in H.
-      pose proof (len_phL l img rd (N.of_nat (S j)) (nth (S j) vols []) (nth (S j) ds []) Hb Hrdk) as Hp.
-      fold bs in Hp. rewrite Hp in H. exact H. }
-    pose proof (probe_later l img rd (N.of_nat k) (N.of_nat n) (nth k vols []) (nth k ds []) Hb Hrdk Hbrk Hvk
-                  ltac:(lia) Husedk a Ibs Iids) as Hp.
-    rewrite Nat2N.id in Hp.
-    eexists. split.
-    - apply Hp.
-      + rewrite Iseen. rewrite app_nth2 by (rewrite repeat_length; lia). rewrite repeat_length.
-        apply nth_repeat.
-      + rewrite Iseen. rewrite app_nth1 by (rewrite repeat_length; lia).
-        clear - Hk. destruct k; [lia | reflexivity].
-      + rewrite Ivol. unfold vol_all.
-        transitivity (nth k (map Some vols) (Some [])); [apply nth_indep; rewrite map_length; unfold n in Hk; lia | now rewrite map_nth].
-    - constructor; cbn [pa_block_size pa_ids pa_vol pa_seen pa_ext pa_ptr pa_max_pfn pa_bmp_pos]; try assumption; try reflexivity.
-      + rewrite Iseen. replace (n - k)%nat with (S (n - S k)) by lia. cbn [repeat].
-        rewrite set_nth_app' by apply repeat_length.
-        rewrite repeat_cons, <- app_assoc. reflexivity.
-      + rewrite Iext. replace (n - k)%nat with (S (n - S k)) by lia. cbn [repeat].
-        rewrite set_nth_app' by (now rewrite map_length, seq_length).
-        rewrite seq_S, map_app. cbn [map Nat.add]. rewrite <- app_assoc. cbn [app].
-        do 2 f_equal. unfold extL, ext_of. clear - Hk. destruct k; [lia | reflexivity].
+    assert (Hfirst : N.of_nat j = 0 \/ (pa_block_size a = bs /\ pa_ids a = sl_ids l)).
+    { destruct j; [now left | right; apply Ifirst; lia]. }
+    assert (Hseen_d : nth (nth j ord 0%nat) (pa_seen a) false = false).
+    { destruct (nth (nth j ord 0%nat) (pa_seen a) false) eqn:E; [| reflexivity].
+      exfalso. apply Hnotin. now apply Iseen. }
+    set (d := nth j ord 0%nat) in *.
+    destruct d as [| d'] eqn:Ed.
+    - (* the file of disk 1 *)
+      pose proof v1_len as Hv. assert (Hd1 : 1 < 2^32) by reflexivity.
+      assert (Hnohead : ~ In 0%nat (firstn j ord)) by exact Hnotin.
+      destruct (in_dec Nat.eq_dec 0%nat (firstn j ord)) as [Hc | _]; [contradiction |].
+      pose proof (fun off k => rd_headS j off k Hj Ed) as Hrd.
+      unfold probe_file.
+      pose proof (sph_is l img rd (N.of_nat j) [] SH d1 v1 1 Hrd) as Hs. change (len []) with 0 in Hs. rewrite Hs.
+      destruct (sph_fields l img rd (N.of_nat j) [] SH d1 v1 1 Hb Hrd break_set Hv Hd1 used_smallS) as [Hsig _].
+      rewrite Hsig.
+      pose proof (oc_set l img rd (N.of_nat j) [] SH d1 v1 1 Hb Hrd break_set Hv Hd1 used_smallS a (N.of_nat n)
+                    vol_all eq_refl ltac:(lia) Ihead Hseen_d Hfirst) as Ho.
+      change (len (@nil N)) with 0 in Ho at 1.
+      eexists. split.
+      + apply Ho. apply init_ok; [exact Hj | exact Ed | |].
+        * cbn [pa_vol]. now rewrite set_nth_length.
+        * intros j' Hj' Hs'. cbn [pa_seen pa_vol] in *.
+          assert (Hin : In j' (firstn j ord)) by (now apply Iseen).
+          assert (j' <> 0%nat) by (intros ->; contradiction).
+          rewrite nth_set_nth_ne by assumption. now apply Ivol.
+      + constructor; cbn [pa_block_size pa_ids pa_vol pa_seen pa_ext pa_ptr pa_max_pfn pa_bmp_pos].
+        * rewrite !set_nth_length. unfold vol_all. rewrite map_length. auto.
+        * auto.
+        * intros e He. rewrite HS, in_app_iff. cbn [In].
+          destruct (Nat.eq_dec e 0) as [-> | Hne].
+          -- rewrite nth_set_nth_eq by lia. tauto.
+          -- rewrite nth_set_nth_ne by assumption. rewrite (Iseen e He). intuition congruence.
+        * intros e He. apply vol_all_nth. apply ord_in.
+          rewrite HS in He. apply in_app_or in He as [He | [<- | []]]; [| apply ord_in; lia].
+          apply (In_nth _ _ 0%nat) in He as [q [Hq <-]]. rewrite firstn_length, ord_length in Hq.
+          rewrite nth_firstn_lt by lia. apply ord_in. apply ord_nth_lt. lia.
+        * reflexivity.
+        * intros i Hi. destruct (Nat.eq_dec i j) as [-> | Hne].
+          -- fold d. rewrite Ed. rewrite nth_set_nth_eq by lia. reflexivity.
+          -- assert (Hdi : nth i ord 0%nat <> 0%nat).
+             { intro E0. apply Hnohead. rewrite <- E0. apply prefix_in; lia. }
+             rewrite nth_set_nth_ne by assumption. apply Iext. lia.
+        * destruct (in_dec Nat.eq_dec 0%nat (firstn (S j) ord)) as [_ | Hc]; [auto |].
+          exfalso. apply Hc. rewrite HS. apply in_or_app. right. now left.
+    - (* a later disk *)
+      assert (Hdn : (S d' < n)%nat) by exact Hd.
+      assert (Hvk : len (nth (S d') vols []) = 16).
+      { rewrite Forall_forall in Hall. apply Hall. apply nth_In. unfold n in Hdn. lia. }
+      assert (Hrdk : forall off c, rd (N.of_nat j) off c =
+                read_of (part_header l (N.of_nat (S d') + 1) (nth (S d') vols []) (bs + len (nth (S d') ds []))
+                         ++ nth (S d') ds []) off c).
+      { intros. rewrite rd_pos by exact Hj. fold d. rewrite Ed, files_nth by exact Hdn. reflexivity. }
+      assert (Hbrk : get false (read_of (nth (S d') ds []) 0 4) <> next_magic l).
+      { pose proof (ss_break _ _ Hwf) as Hbr. fold data ds in Hbr. rewrite Forall_forall in Hbr.
+        apply Hbr. apply nth_in_tl. rewrite ds_length. lia. }
+      assert (Husedk : bs + len (nth (S d') ds []) < 2^64).
+      { pose proof (files_small (S d') Hdn) as H. rewrite files_nth in H by exact Hdn.
+        cbn [Nat.eqb] in H. unfold later_file in H. rewrite len_app in H.
+        pose proof (len_phL l img rd (N.of_nat j) (N.of_nat (S d')) (nth (S d') vols []) (nth (S d') ds []) Hb Hrdk) as Hp.
+        fold bs in Hp. rewrite Hp in H. exact H. }
+      pose proof (probe_later l img rd (N.of_nat j) (N.of_nat n) (N.of_nat (S d')) (nth (S d') vols [])
+                    (nth (S d') ds []) Hb Hrdk Hbrk Hvk ltac:(lia) Husedk a Hfirst) as Hp.
+      rewrite Nat2N.id in Hp.
+      assert (Hvol_d : nth 0 (pa_seen a) false = true -> nth (S d') (pa_vol a) None = Some (nth (S d') vols [])).
+      { intro H0. rewrite Ivolall by (apply Iseen; [lia | exact H0]). now apply vol_all_nth. }
+      eexists. split; [apply Hp; [exact Hseen_d | exact Hvol_d] |].
+      assert (Hhead_same : In 0%nat (firstn (S j) ord) <-> In 0%nat (firstn j ord)).
+      { rewrite HS, in_app_iff. cbn [In]. intuition congruence. }
+      constructor; cbn [pa_block_size pa_ids pa_vol pa_seen pa_ext pa_ptr pa_max_pfn pa_bmp_pos].
+      * rewrite !set_nth_length. destruct (nth 0 (pa_seen a) false); rewrite ?set_nth_length; auto.
+      * auto.
+      * intros e He. rewrite HS, in_app_iff. cbn [In].
+        destruct (Nat.eq_dec e (S d')) as [-> | Hne].
+        -- rewrite nth_set_nth_eq by lia. tauto.
+        -- rewrite nth_set_nth_ne by assumption. rewrite (Iseen e He). intuition congruence.
+      * intros e He. rewrite HS in He. apply in_app_or in He as [He | [<- | []]].
+        -- destruct (nth 0 (pa_seen a) false); [now apply Ivol |].
+           assert (e <> S d') by (intros ->; contradiction).
+           rewrite nth_set_nth_ne by assumption. now apply Ivol.
+        -- destruct (nth 0 (pa_seen a) false) eqn:E0; [now apply Hvol_d |].
+           rewrite nth_set_nth_eq by lia. reflexivity.
+      * intro H0. apply Hhead_same in H0.
+        assert (Hs0 : nth 0 (pa_seen a) false = true) by (apply Iseen; [lia | exact H0]).
+        rewrite Hs0. now apply Ivolall.
+      * intros i Hi. destruct (Nat.eq_dec i j) as [-> | Hne].
+        -- fold d. rewrite Ed. rewrite nth_set_nth_eq by lia. reflexivity.
+        -- assert (Hdi : nth i ord 0%nat <> S d').
+           { intro E0. apply Hnotin. rewrite <- E0. apply prefix_in; lia. }
+           rewrite nth_set_nth_ne by assumption. apply Iext. lia.
+      * destruct (in_dec Nat.eq_dec 0%nat (firstn (S j) ord)) as [H1 | H1];
+          destruct (in_dec Nat.eq_dec 0%nat (firstn j ord)) as [H2 | H2]; try exact Ihead; exfalso; tauto.
   Qed.
 
-  Lemma rest_steps : forall j k a,
-    (1 <= k)%nat -> (k + j = n)%nat -> inv k a ->
-    exists a', probe_files rd j (N.of_nat n) (N.of_nat k) a = Ok a' /\ inv n a'.
+  Lemma steps : forall k j a, (j + k = n)%nat -> inv j a ->
+    exists a', probe_files rd k (N.of_nat n) (N.of_nat j) a = Ok a' /\ inv n a'.
   Proof.
-    induction j as [| j IH]; intros k a Hk Hsum Hinv.
-    - exists a. split; [reflexivity |]. replace n with k by lia. exact Hinv.
-    - cbn [probe_files]. destruct (later_step k a ltac:(lia) Hinv) as [a1 [Hp Hi1]]. rewrite Hp.
-      replace (N.of_nat k + 1) with (N.of_nat (S k)) by lia. apply IH; [lia | lia | exact Hi1].
+    induction k as [| k IH]; intros j a Hsum Hinv.
+    - exists a. split; [reflexivity |]. replace n with j by lia. exact Hinv.
+    - cbn [probe_files]. destruct (step j a ltac:(lia) Hinv) as [a1 [Hp Hi1]]. rewrite Hp.
+      replace (N.of_nat j + 1) with (N.of_nat (S j)) by lia. apply IH; [lia | exact Hi1].
   Qed.
 
-  Lemma probe_all : forall fuel, fuel = n ->
-    exists a, probe_files rd fuel (N.of_nat n) 0 (a0 n) = Ok a /\ inv n a.
+  (** where disk 1's file is *)
+  Definition head_pos : nat := index_of 0%nat ord.
+
+  Lemma head_pos_ok : (head_pos < n)%nat /\ nth head_pos ord 0%nat = 0%nat.
   Proof.
-    intros fuel E. pose proof n_pos as Hn. destruct fuel as [| j]; [lia |]. cbn [probe_files].
-    destruct head_step as [a1 [Hp1 Hi1]]. rewrite Hp1.
-    change (0 + 1) with (N.of_nat 1). apply (rest_steps j 1 a1); [lia | lia | exact Hi1].
+    destruct (index_of_nth 0%nat ord (proj2 (ord_in 0%nat) n_pos)) as [H1 H2].
+    rewrite ord_length in H1. auto.
   Qed.
 
   Theorem sd_open_set :
-    sd_open rd n = Ok (the_state img (nbytes l) exts (sl_max_mapnr l) bs (ptr l) (N.of_nat n)).
+    exists exts, sd_open rd n = Ok (the_state img (nbytes l) exts (sl_max_mapnr l) bs (ptr l) (N.of_nat n)) /\
+      length exts = n /\
+      forall i, (i < n)%nat -> nth (nth i ord 0%nat) exts zero_ext = ext_of (nth i ord 0%nat) i.
   Proof.
     pose proof n_pos as Hn. pose proof v1_len as Hv. assert (Hd : 1 < 2^32) by reflexivity.
+    destruct head_pos_ok as [Hh1 Hh2].
     unfold sd_open. fold (a0 n).
-    destruct (probe_all n eq_refl) as [a [Hpf [Ibs Iids Ivol Iseen Iext Iptr Imax Ibmp]]].
-    rewrite Hpf. cbv beta iota.
-    assert (Hexts' : exts = ext0 l [] SH d1 :: tl exts).
-    { unfold exts. apply (map_seq_head ext_of n Hn). }
-    assert (Hexts : pa_ext a = ext0 l [] SH d1 :: tl exts).
-    { rewrite Iext, Nat.sub_diag. cbn [repeat]. rewrite app_nil_r. exact Hexts'. }
-    rewrite Hexts' at 1.
-    apply (open_tail l img rd [] SH d1 v1 1 Hb rd_headS break_set Hv Hd used_smallS a (tl exts)); assumption.
+    destruct (steps n 0 (a0 n) ltac:(lia) inv0) as [a [Hpf [[Ls [Lv Le]] Ifirst Iseen Ivol Ivolall Iext Ihead]]].
+    change (N.of_nat 0) with 0 in Hpf. rewrite Hpf. cbv beta iota.
+    assert (Hall_in : forall d, (d < n)%nat -> In d (firstn n ord)).
+    { intros d Hd'. rewrite firstn_all2 by (rewrite ord_length; lia). now apply ord_in. }
+    destruct (in_dec Nat.eq_dec 0%nat (firstn n ord)) as [_ | Hc]; [| exfalso; apply Hc; apply Hall_in; lia].
+    destruct Ihead as [Hptr [Hmax Hbmp]]. destruct (Ifirst Hn) as [Hbs _].
+    pose proof (Iext head_pos Hh1) as He0. rewrite Hh2 in He0. cbn [ext_of] in He0.
+    assert (Hexts : pa_ext a = ext0 l (N.of_nat head_pos) [] SH d1 :: tl (pa_ext a)).
+    { destruct (pa_ext a) as [| e t]; [cbn in Le; lia |]. cbn [nth] in He0. cbn [tl]. now rewrite He0. }
+    exists (pa_ext a). split; [| split; [exact Le | exact Iext]].
+    rewrite Hexts at 2.
+    apply (open_tail l img rd (N.of_nat head_pos) [] SH d1 v1 1 Hb (fun off k => rd_headS head_pos off k Hh1 Hh2)
+             break_set Hv Hd used_smallS a (tl (pa_ext a))); assumption.
   Qed.
 
-  (** the extents lay out the page data *)
-  Lemma set_page_path k : k < count_some img ->
+  (** the extents lay out the page data, whatever the order of the files *)
+  Lemma set_page_path exts k :
+    length exts = n ->
+    (forall i, (i < n)%nat -> nth (nth i ord 0%nat) exts zero_ext = ext_of (nth i ord 0%nat) i) ->
+    k < count_some img ->
     exists f o, ext_loop exts (4096 * k) = Some (f, o) /\
                 rd f o 4096 = read_of (page_data img) (4096 * k) 4096.
   Proof.
-    intro Hk. pose proof (len_page_data img (sw_pages _ _ Hb)) as Hl.
+    intros Hlen Hext Hk. pose proof (len_page_data img (sw_pages _ _ Hb)) as Hl.
     destruct (ss_parts _ _ Hwf) as [Hlenp [_ Hsum]].
     destruct (split_data_concat (sl_disk_pages l) (page_data img) Hsum) as [Hcat Hlens]. fold data ds in Hcat, Hlens.
     pose proof ds_length as Hdl.
     set (chunks := combine exts ds).
-    assert (Hfst : map fst chunks = exts).
-    { unfold chunks. apply map_fst_combine. unfold exts. rewrite map_length, seq_length. lia. }
-    assert (Hsnd : map snd chunks = ds).
-    { unfold chunks. apply map_snd_combine. unfold exts. rewrite map_length, seq_length. lia. }
+    assert (Hfst : map fst chunks = exts) by (unfold chunks; apply map_fst_combine; lia).
+    assert (Hsnd : map snd chunks = ds) by (unfold chunks; apply map_snd_combine; lia).
     rewrite <- Hfst. fold data. rewrite <- Hcat, <- Hsnd.
     apply ext_loop_chunks.
     - apply Forall_forall. intros [e d] Hin. cbn [fst snd].
       apply (In_nth _ _ (zero_ext, [])) in Hin as [j [Hj Hnth]].
-      unfold chunks in Hj, Hnth. rewrite combine_length in Hj. unfold exts in Hj. rewrite map_length, seq_length in Hj.
+      unfold chunks in Hj, Hnth. rewrite combine_length in Hj.
       assert (E : nth j (combine exts ds) (zero_ext, []) = (nth j exts zero_ext, nth j ds []))
-        by (apply combine_nth; unfold exts; rewrite map_length, seq_length; lia).
+        by (apply combine_nth; lia).
       pose proof (eq_trans (eq_sym E) Hnth) as Hn2. injection Hn2 as He Hd'. subst e d.
       assert (Hjn : (j < n)%nat) by lia.
-      unfold exts. rewrite (nth_indep _ zero_ext (ext_of 0)) by (rewrite map_length, seq_length; lia).
-      rewrite map_nth, seq_nth by lia. cbn [Nat.add].
+      (* disk j's file is the [i]-th one passed *)
+      destruct (index_of_nth j ord (proj2 (ord_in j) Hjn)) as [Hi1 Hi2]. rewrite ord_length in Hi1.
+      set (i := index_of j ord) in *.
+      pose proof (Hext i Hi1) as Hej. rewrite Hi2 in Hej. rewrite Hej.
       assert (Hmod : len (nth j ds []) mod 4096 = 0).
-      { assert (Hc : exists c, len (nth j ds []) = c * SD_PAGE).
-        { apply (parts_page_multiple ds (sl_disk_pages l) Hlens). lia. }
-        destruct Hc as [c ->]. unfold SD_PAGE. apply N.mod_mul. discriminate. }
+      { destruct (parts_page_multiple ds (sl_disk_pages l) Hlens j ltac:(lia)) as [c ->].
+        unfold SD_PAGE. apply N.mod_mul. discriminate. }
       destruct j as [| j'].
       + cbn [ext_of ext0 ex_len ex_fidx ex_pos]. fold d1. split; [reflexivity |]. split; [exact Hmod |].
-        intros o c Hoc. apply (rd_data l img rd [] SH d1 v1 1 Hb rd_headS o c Hoc).
+        intros o c Hoc.
+        apply (rd_data l img rd (N.of_nat i) [] SH d1 v1 1 Hb (fun off k0 => rd_headS i off k0 Hi1 Hi2) o c Hoc).
       + cbn [ext_of ex_len ex_fidx ex_pos]. split; [reflexivity |]. split; [exact Hmod |].
         intros o c Hoc.
-        assert (Hrdk : forall off c0, rd (N.of_nat (S j')) off c0 =
+        assert (Hrdk : forall off c0, rd (N.of_nat i) off c0 =
                   read_of (part_header l (N.of_nat (S j') + 1) (nth (S j') vols []) (bs + len (nth (S j') ds [])) ++ nth (S j') ds []) off c0).
-        { intros. rewrite rd_file, files_nth by lia. reflexivity. }
-        apply (rd_dataL l img rd (N.of_nat (S j')) (nth (S j') vols []) (nth (S j') ds []) Hb Hrdk o c Hoc).
+        { intros. rewrite rd_pos by exact Hi1. rewrite Hi2, files_nth by lia. reflexivity. }
+        apply (rd_dataL l img rd (N.of_nat i) (N.of_nat (S j')) (nth (S j') vols []) (nth (S j') ds []) Hb Hrdk o c Hoc).
     - rewrite N.mul_comm. apply N.mod_mul. discriminate.
     - rewrite Hsnd, Hcat. unfold data. rewrite Hl. lia.
   Qed.
 End DiskSet.
 
-Theorem sadump_set_roundtrip l img :
-  sd_wf_set l img ->
-  exists st, sd_open (read_files (encode_sadump l img)) (length (sl_vol_ids l)) = Ok st /\
+(** the files of a disk set in the order [ord] (disk numbers - 1) *)
+Definition permuted_files (l : sd_layout) (img : image) (ord : list nat) : list bytes :=
+  map (fun d => nth d (encode_sadump l img) []) ord.
+
+Theorem sadump_set_roundtrip l img ord :
+  sd_wf_set l img -> Permutation.Permutation ord (seq 0 (length (sl_vol_ids l))) ->
+  exists st, sd_open (read_files (permuted_files l img ord)) (length (sl_vol_ids l)) = Ok st /\
     sd_ptr_size st = (if existsb (fun b => b) (sl_lma l) then 8 else 4) /\
     sd_max_pfn st = sl_max_mapnr l /\ sd_block_size st = sl_block_size l /\
     forall z pfn,
-      sd_read_page (read_files (encode_sadump l img)) st z pfn =
+      sd_read_page (read_files (permuted_files l img ord)) st z pfn =
       spec_read_page img SADUMP_PAGE_SIZE (sl_max_mapnr l) z pfn.
 Proof.
-  intro Hwf. pose proof (ss_base _ _ Hwf) as Hb.
-  eexists. split; [exact (sd_open_set l img Hwf) |].
+  intros Hwf Hord. pose proof (ss_base _ _ Hwf) as Hb.
+  destruct (sd_open_set l img Hwf ord Hord) as [exts [Ho [Hlen Hext]]].
+  eexists. split; [exact Ho |].
   split; [reflexivity |]. split; [reflexivity |]. split; [reflexivity |].
   intros z pfn. apply sadump_page_path.
   - exact (sw_pages _ _ Hb).
   - destruct (sw_cover _ _ Hb) as [H1 H2]. unfold nbytes. lia.
-  - intros k Hk. exact (set_page_path l img Hwf k Hk).
+  - intros k Hk. exact (set_page_path l img Hwf ord Hord exts k Hlen Hext Hk).
 Qed.
